@@ -21,63 +21,8 @@ static long g_samples_left = 6;
 static long g_skip = -1;
 static void count(const std::string& k, long n = 1) { g_counts[k] += n; }
 
-struct Pattern {
-    int id;
-    Http::Method method;
-    std::vector<std::string> segs;   // "a", ":x", ":o?", "*"
-    std::string text;                // as registered (may carry extra slashes)
-    bool midOptional = false;
-};
-static const Http::Method METHODS[] = {Http::Method::Get, Http::Method::Post, Http::Method::Put, Http::Method::Delete};
-static const char* MNAME(Http::Method m) { return Http::methodString(m); }
-
-// ------------------------------------------------------------------ reference matcher
-struct Match { std::vector<int> rank; std::map<std::string, std::string> params; std::vector<std::string> splats; };
-static void match_rec(const Pattern& p, size_t pi, const std::vector<std::string>& path, size_t si, Match cur, std::vector<Match>& out) {
-    if (pi == p.segs.size()) { if (si == path.size()) out.push_back(cur); return; }
-    const std::string& s = p.segs[pi];
-    if (s == "*") { if (si < path.size()) { cur.rank.push_back(3); cur.splats.push_back(path[si]); match_rec(p, pi + 1, path, si + 1, cur, out); } return; }
-    if (s[0] == ':' && s.back() == '?') {
-        std::string name = s.substr(0, s.size() - 1);
-        if (si < path.size()) { Match m = cur; m.rank.push_back(2); m.params[name] = path[si]; match_rec(p, pi + 1, path, si + 1, m, out); }
-        match_rec(p, pi + 1, path, si, cur, out);   // absent
-        return;
-    }
-    if (s[0] == ':') { if (si < path.size()) { cur.rank.push_back(1); cur.params[s] = path[si]; match_rec(p, pi + 1, path, si + 1, cur, out); } return; }
-    if (si < path.size() && path[si] == s) { cur.rank.push_back(0); match_rec(p, pi + 1, path, si + 1, cur, out); }
-}
-struct Admissible { int pattern; Match m; };
-// best matches (lexicographically smallest rank vector) among the patterns of one method; ties are all admissible
-static std::vector<Admissible> best_matches(const std::vector<Pattern>& table, Http::Method method, const std::vector<std::string>& path) {
-    std::vector<Admissible> all;
-    for (auto& p : table) if (p.method == method) { std::vector<Match> ms; match_rec(p, 0, path, 0, Match(), ms); for (auto& m : ms) all.push_back({p.id, m}); }
-    if (all.empty()) return all;
-    // A match is admissible unless another match dominates it.  A dominates B when, at the first
-    // pattern segment where the two routes part (same route-tree node, same number of path segments
-    // consumed so far), A continues with a segment kind of higher precedence
-    // (fixed < parameter < optional < wildcard).  Same kind under another name (":x" vs ":y"), or one
-    // route ending where the other continues with absent optionals, is a tie: the statement does
-    // not order those, so both stay admissible.
-    auto kind = [](const std::string& s) { return s == "*" ? 3 : s[0] == ':' ? (s.back() == '?' ? 2 : 1) : 0; };
-    auto byId = [&](int id) -> const Pattern& { for (auto& p : table) if (p.id == id) return p; return table[0]; };
-    auto dominates = [&](const Admissible& A, const Admissible& B) {
-        if (A.pattern == B.pattern) return false;
-        const Pattern& pa = byId(A.pattern); const Pattern& pb = byId(B.pattern);
-        size_t i = 0; size_t ca = 0, cb = 0;   // consumed path segments (rank entries) so far
-        auto consumed = [&](const Admissible& M, const Pattern& p, size_t idx, size_t& c) {
-            const std::string& s = p.segs[idx];
-            if (s[0] == ':' && s.back() == '?') { std::string n = s.substr(0, s.size() - 1); if (M.m.params.count(n)) c++; } else c++;
-        };
-        while (i < pa.segs.size() && i < pb.segs.size() && pa.segs[i] == pb.segs[i]) { consumed(A, pa, i, ca); consumed(B, pb, i, cb); i++; }
-        if (ca != cb) return false;
-        if (i >= pa.segs.size() || i >= pb.segs.size()) return false;
-        return kind(pa.segs[i]) < kind(pb.segs[i]);
-    };
-    std::vector<Admissible> out;
-    for (auto& b : all) { bool dom = false; for (auto& a : all) if (dominates(a, b)) { dom = true; break; } if (!dom) out.push_back(b); }
-    return out;
-}
-
+#include "routemodel.h"
+using namespace rm;
 // ------------------------------------------------------------------ real side
 struct Hit { int pattern; std::map<std::string, std::string> params; std::vector<std::string> splats; };
 static std::vector<Hit> g_hits;
